@@ -25,6 +25,11 @@ MIX = [
     "CC[C@H](C)C(C)=O>>CC[C@H](C)C(C)O",              # stereo twin 1
     "CC[C@@H](C)C(C)=O>>CC[C@@H](C)C(C)O",            # stereo twin 2
     "CC(=O)Cl.CN>>CC(=O)NC",                          # exact repetition of row 2
+    "CC(=O)O>>CC(=O)NC",                              # two-sided imbalance with surplus O on the reactant side: declined
+    "CCO.O>>CC(=O)O",                                 # primary alcohol -> acid (KMnO4 template that does not balance: restore stage)
+    "CCCCO.O.O>>CCCC(=O)O",
+    "[Np]>>[Nb]",                                     # look-alike symbols of different elements: never balanced
+    "[CH3:1][C:2](=[O:3])[Cl:4].[CH3:5][NH2:6]>>[CH3:1][C:2](=[O:3])[NH:6][CH3:5]",   # the atom-mapped spelling of row 2
 ]
 PUBLIC = ("input_reaction", "reaction", "solved", "solved_by", "issue", "rules", "confidence")
 
@@ -74,6 +79,7 @@ def compute():
     runs.append(_run("batch_size=4", M, lambda: list(M), batch_size=4))
     runs.append(_run("batch_size=1", M, lambda: list(M), batch_size=1))
     runs.append(_run("3 worker threads, batch_size=7", M, lambda: list(M), n_jobs=3, batch_size=7, _threads=3))
+    runs.append(_run("2 worker processes", M, lambda: list(M), n_jobs=2))
     runs.append(_run("threshold 0.5", M, lambda: list(M), confidence_threshold=0.5))
     # (further columns under names of their own; what should happen to user columns NAMED like output columns is not defined by any property)
     drows = [{"id": i + 1, "reaction": s, "note": "n%d" % i, "source": "file", "yield": 0.5} for i, s in enumerate(M)]
